@@ -54,7 +54,7 @@
 From Coq Require Import String List NArith.
 From ApiFu Require Import Base.Sexp Feat.FeaturesModel Feat.FeaturesSpec Feat.FeaturesProofs Feat.FeaturesReach
   Feat.FeaturesDocModel Feat.FeaturesDocProofs Feat.FeaturesFuelProofs.
-From ApiFu Require Vld.Ast Vld.Inspect Vld.TypeInfoModel Vld.ValidatorModel Vld.ProofsCommon Feat.FeaturesVld Feat.FeaturesVldRules
+From ApiFu Require Vld.Ast Vld.Inspect Vld.TypeInfoModel Vld.ValidatorModel Vld.ProofsCommon Vld.Witness Feat.FeaturesVld Feat.FeaturesVldRules
   Exe.ExecData Exe.ExecModel Feat.FeaturesExe.
 Import ListNotations.
 Open Scope string_scope.
@@ -206,27 +206,26 @@ Proof. exact ws_frozen. Qed.
     Feat/FeaturesVldRules.v)
 
     C04's [validate_model q pi S F D] takes the feature set and does its own gating.  For [vok S]
-    (the feature rules of schema.New in C04's vocabulary), F ⊆ G and a map-iteration order [pi] that
-    is a permutation, proved from C04's definitions for EVERY document (arguments, variables,
-    directives, value literals, equal response keys and the field-merging rule included):
+    (the feature rules of schema.New in C04's vocabulary; evaluated by the check on every schema
+    the real schema.New accepted), F ⊆ G, a map-iteration order [pi] that is a permutation and the
+    repaired validator ([q_impl_features q = true]: getPossibleTypes lists only implementations the
+    request can see — on in C04's [repaired]), proved from C04's definitions for EVERY document
+    (arguments, variables, directives, value literals, equal response keys and the field-merging
+    rule included):
 
         validate_model q pi (verase S F) G D = validate_model q pi S F D        ([C13_C04_validate_eq])
 
-    under ONE further hypothesis [PT]: getPossibleTypes of a type the request may see answers alike
-    on both schemas.  C04's [possible_types] still transcribes getPossibleTypes without the feature
-    filter of the repaired code; so [PT] is explicit, it is discharged for schemas in which no
-    implementation listed for a visible interface is gated ([C13_C04_validate_eq_no_gated_impls]),
-    and [C13_C04_spread_rule_refuted_as_modelled] shows that it cannot be dropped on the model as
-    it stands.  When C04's [possible_types] filters [s_impls] by [t_req ⊆ F], [PT] becomes a lemma
-    (the argument of [ask_erase], QPossibleV), the refutation witness stops compiling and is to be
-    replaced by the unconditional theorem.
+    For the pinned getPossibleTypes (filter off) the equation holds exactly as far as no
+    implementation listed for a visible interface is gated ([C13_C04_validate_eq_no_gated_impls])
+    and fails otherwise ([C13_C04_spread_rule_refuted_before_fix]: the C13 witness of defect #30 in
+    C04's encoding; [C13_C04_spread_rule_after_fix]: the same instance with the repair).
     The parts, each a theorem of its own:
       - [C13_C04_type_info_eq]: NewTypeInfo fills every slot alike;
       - [C13_C04_slots_visible]: every slot of the annotated document (selection-set scope, field
         definition, expected type of a value, variable type) holds only types visible to F;
       - [C13_C04_small_rule_groups], [C13_C04_variables_rule], [C13_C04_fields_rule] (both passes,
         the second being the field-merging rule), [C13_C04_values_rule]: the rule groups answer
-        alike, without [PT]. *)
+        alike, for every quirk setting. *)
 Theorem C13_C04_type_info_eq : forall (S : Vld.Ast.schema) (F G : Vld.Ast.features) q (D : Vld.Ast.document),
   FeaturesVld.vok S = true -> Vld.Ast.subset F G = true ->
   TypeInfoModel.type_info q (FeaturesVld.verase S F) G D = TypeInfoModel.type_info q S F D.
@@ -276,28 +275,39 @@ Qed.
 
 Theorem C13_C04_validate_eq : forall (S : Vld.Ast.schema) (F G : Vld.Ast.features) pi q (D : Vld.Ast.document),
   FeaturesVld.vok S = true -> Vld.Ast.subset F G = true -> ProofsCommon.order_ok pi ->
-  (forall tn, FeaturesVld.vvisible S F tn = true ->
-              ValidatorModel.possible_types (FeaturesVld.verase S F) tn = ValidatorModel.possible_types S tn) ->
+  ValidatorModel.q_impl_features q = true ->
   ValidatorModel.validate_model q pi (FeaturesVld.verase S F) G D = ValidatorModel.validate_model q pi S F D.
-Proof. exact (fun S F G pi q D Hok HFG Hpi PT => FeaturesVldRules.validate_eq S F G Hok HFG pi Hpi PT q D). Qed.
+Proof. exact (fun S F G pi q D => FeaturesVldRules.validate_eq_repaired S F G pi q D). Qed.
 
 Theorem C13_C04_validate_eq_no_gated_impls : forall (S : Vld.Ast.schema) (F G : Vld.Ast.features) pi q (D : Vld.Ast.document),
   FeaturesVld.vok S = true -> Vld.Ast.subset F G = true -> ProofsCommon.order_ok pi ->
-  FeaturesVld.vnodup (map fst (Vld.Ast.s_impls S)) = true -> FeaturesVldRules.impls_visible S F ->
+  ValidatorModel.q_impl_features q = false -> FeaturesVldRules.impls_visible S F ->
   ValidatorModel.validate_model q pi (FeaturesVld.verase S F) G D = ValidatorModel.validate_model q pi S F D.
 Proof. exact (fun S F G pi q D => FeaturesVldRules.validate_eq_no_gated_impls S F G pi q D). Qed.
 
-Theorem C13_C04_spread_rule_refuted_as_modelled :
+Theorem C13_C04_spread_rule_refuted_before_fix :
   FeaturesVld.vok FeaturesVld.VW = true /\ Vld.Ast.subset nil (cons FeaturesVld.vfa nil) = true /\
-  ValidatorModel.validate_model ValidatorModel.repaired ValidatorModel.id_order FeaturesVld.VW nil FeaturesVld.VD
+  ValidatorModel.q_impl_features Witness.before_fix_30 = false /\
+  ValidatorModel.validate_model Witness.before_fix_30 ValidatorModel.id_order FeaturesVld.VW nil FeaturesVld.VD
   = Vld.Ast.Done nil /\
-  ValidatorModel.validate_model ValidatorModel.repaired ValidatorModel.id_order
+  ValidatorModel.validate_model Witness.before_fix_30 ValidatorModel.id_order
       (FeaturesVld.verase FeaturesVld.VW nil) (cons FeaturesVld.vfa nil) FeaturesVld.VD
   = Vld.Ast.Done (cons {| Vld.Ast.e_locs := cons (FeaturesVld.vp 1%N 14%N) nil; Vld.Ast.e_sec := false;
-                                 Vld.Ast.e_kind := Vld.Ast.ESpreadImpossible |} nil) /\
+                          Vld.Ast.e_kind := Vld.Ast.ESpreadImpossible |} nil) /\
   TypeInfoModel.type_info true FeaturesVld.VW nil FeaturesVld.VD
   = TypeInfoModel.type_info true (FeaturesVld.verase FeaturesVld.VW nil) (cons FeaturesVld.vfa nil) FeaturesVld.VD.
-Proof. exact FeaturesVld.spreads_refuted. Qed.
+Proof. exact FeaturesVld.spreads_refuted_before_fix. Qed.
+
+Theorem C13_C04_spread_rule_after_fix :
+  ValidatorModel.validate_model ValidatorModel.repaired ValidatorModel.id_order FeaturesVld.VW nil FeaturesVld.VD
+  = Vld.Ast.Done (cons {| Vld.Ast.e_locs := cons (FeaturesVld.vp 1%N 14%N) nil; Vld.Ast.e_sec := false;
+                          Vld.Ast.e_kind := Vld.Ast.ESpreadImpossible |} nil) /\
+  ValidatorModel.validate_model ValidatorModel.repaired ValidatorModel.id_order
+      (FeaturesVld.verase FeaturesVld.VW nil) (cons FeaturesVld.vfa nil) FeaturesVld.VD
+  = ValidatorModel.validate_model ValidatorModel.repaired ValidatorModel.id_order FeaturesVld.VW nil FeaturesVld.VD /\
+  ValidatorModel.validate_model ValidatorModel.repaired ValidatorModel.id_order FeaturesVld.VW (cons FeaturesVld.vfa nil) FeaturesVld.VD
+  = Vld.Ast.Done nil.
+Proof. exact FeaturesVld.spreads_after_fix. Qed.
 
 (** ** the bridge to C01's executor model (coq/Exe, imported read-only; Feat/FeaturesExe.v)
 
@@ -462,7 +472,8 @@ Print Assumptions C13_C04_validate_eq.
 Print Assumptions C13_C04_validate_eq_no_gated_impls.
 Print Assumptions C13_C01_view_eq.
 Print Assumptions C13_C01_run_request_eq.
-Print Assumptions C13_C04_spread_rule_refuted_as_modelled.
+Print Assumptions C13_C04_spread_rule_refuted_before_fix.
+Print Assumptions C13_C04_spread_rule_after_fix.
 Print Assumptions C13_erase_schema_ok.
 Print Assumptions C13_enabling_is_monotone.
 Print Assumptions C13_enabling_shows_everything.
